@@ -34,7 +34,9 @@ int main(int argc, char** argv) {
       it[i] = static_cast<Item*>(p); it[i]->key = h["kv"][i - 1].get<int>(); it[i]->id = i;
     }
     {
-      Heap heap;
+      Heap* hp = new Heap;                    // leaked if the structure turns out corrupt (its destructor walks the list)
+      Heap& heap = *hp;
+      bool corrupt = false;
       for (auto& st : h["steps"]) {
         std::string op = st[0].get<std::string>(); int item = st[1].get<int>(); int res = 0;
         if (op == "insert") heap.insert(it[item]);
@@ -56,8 +58,10 @@ int main(int argc, char** argv) {
         json got = json::parse(order);
         if (got != st[3] || (op == "pop" && res != st[2].get<int>())) { ++mism; if (firstMism.empty()) firstMism = "history " + std::to_string(x); }
         ++steps;
+        // a list that is not what the model says (the monitor judges the event just logged) cannot be driven further
+        if (links == 0 || cnt >= 10 || got != st[3]) { corrupt = true; break; }
       }
-      while (!heap.empty()) heap.pop();     // ~intrusive_heap asserts emptiness
+      if (!corrupt) { while (!heap.empty()) heap.pop(); delete hp; }     // ~intrusive_heap asserts emptiness
     }
     for (int i = 1; i <= n; ++i) ::operator delete(it[i]);
     ++execs;
